@@ -7,6 +7,7 @@ import (
 	"sort"
 	"strconv"
 	"strings"
+	"sync/atomic"
 	"testing"
 	"time"
 
@@ -56,9 +57,37 @@ func private(kind string) bool {
 	return kind == "pput" || kind == "padd" || kind == "pdel" || kind == "pcheck"
 }
 
-// apply performs one operation on an object and renders the result; Suneido level
+// What is shared: a plain object, a record built member by member, or a record that still
+// reads from the database row it was made from (members are unpacked and cached by reads).
+const (
+	kObject = iota
+	kRecord
+	kRowRecord
+)
+
+var kindNames = []string{"object", "record", "row-backed record"}
+
+var rowFields = []string{"f0", "f1", "f2", "f3"}
+
+// key maps the small integer of an operation to a member: records are mostly used through
+// their named (string) members, which take the record-specific paths.
+func key(ckind, k int) core.Value {
+	if ckind != kObject && k < 5 {
+		return core.SuStr("f" + strconv.Itoa(k))
+	}
+	return core.SuInt(k)
+}
+
+func size(c core.Container) int {
+	if ob, ok := c.(*core.SuObject); ok {
+		return ob.Size()
+	}
+	return c.ListSize() + c.NamedSize()
+}
+
+// apply performs one operation on a container and renders the result; Suneido level
 // exceptions are results, Go run-time errors are reported separately.
-func apply(ob *core.SuObject, in opIn) (out string, crash string) {
+func apply(c core.Container, ckind int, in opIn) (out string, crash string) {
 	defer func() {
 		if e := recover(); e != nil {
 			if re, ok := e.(interface{ RuntimeError() }); ok {
@@ -69,73 +98,69 @@ func apply(ob *core.SuObject, in opIn) (out string, crash string) {
 			out = "throws: " + fmt.Sprint(e)
 		}
 	}()
-	k, v := core.SuInt(in.K), core.SuInt(in.V)
+	k, v := key(ckind, in.K), core.SuInt(in.V)
+	str := func(x core.Value) string {
+		if x == nil {
+			return "nil"
+		}
+		return x.String()
+	}
 	switch in.Kind {
-	case "add":
-		ob.Add(v)
+	case "add", "padd":
+		c.Add(v)
 		return "ok", ""
-	case "put":
-		ob.Put(nil, k, v)
+	case "put", "pput":
+		switch c := c.(type) {
+		case *core.SuObject:
+			c.Put(nil, k, v)
+		case *core.SuRecord:
+			c.Put(nil, k, v)
+		}
 		return "ok", ""
 	case "get":
-		x := ob.GetIfPresent(nil, k)
-		if x == nil {
-			return "nil", ""
-		}
-		return x.String(), ""
-	case "delete":
-		return fmt.Sprint(ob.Delete(nil, k)), ""
+		return str(c.GetIfPresent(nil, k)), ""
+	case "delete", "pdel":
+		return fmt.Sprint(c.Delete(nil, k)), ""
 	case "erase":
-		return fmt.Sprint(ob.Erase(nil, k)), ""
+		return fmt.Sprint(c.Erase(nil, k)), ""
 	case "size":
-		return fmt.Sprint(ob.Size()), ""
+		return fmt.Sprint(size(c)), ""
 	case "listsize":
-		return fmt.Sprint(ob.ListSize()), ""
+		return fmt.Sprint(c.ListSize()), ""
 	case "namedsize":
-		return fmt.Sprint(ob.NamedSize()), ""
+		return fmt.Sprint(c.NamedSize()), ""
 	case "has":
-		return fmt.Sprint(ob.HasKey(k)), ""
+		return fmt.Sprint(c.HasKey(k)), ""
 	case "find":
-		x := ob.Find(v)
-		if x == nil {
-			return "nil", ""
+		if ob, ok := c.(*core.SuObject); ok {
+			return str(ob.Find(v)), ""
 		}
-		return x.String(), ""
+		return str(c.GetIfPresent(nil, k)), ""
 	case "popfirst":
-		x := ob.PopFirst()
-		if x == nil {
-			return "nil", ""
+		if ob, ok := c.(*core.SuObject); ok {
+			return str(ob.PopFirst()), ""
 		}
-		return x.String(), ""
+		return fmt.Sprint(c.HasKey(k)), ""
 	case "poplast":
-		x := ob.PopLast()
-		if x == nil {
-			return "nil", ""
+		if ob, ok := c.(*core.SuObject); ok {
+			return str(ob.PopLast()), ""
 		}
-		return x.String(), ""
+		return fmt.Sprint(c.NamedSize()), ""
 	case "insert":
-		ob.Insert(in.K, v)
+		c.Insert(in.K, v)
 		return "ok", ""
 	case "copy":
-		return encode(ob.Clone()), ""
+		return encode(c.Copy()), ""
 	case "slice":
-		return encode(ob.Slice(in.K % 3).(*core.SuObject)), ""
-	case "pput":
-		ob.Put(nil, k, v)
-		return "ok", ""
-	case "padd":
-		ob.Add(v)
-		return "ok", ""
-	case "pdel":
-		return fmt.Sprint(ob.Delete(nil, k)), ""
+		return encode(c.Slice(in.K % 3)), ""
 	case "pcheck":
 		return "ok", ""
 	}
 	return "?", ""
 }
 
-// takeCopy performs copy or slice on the shared object and keeps the copy.
-func takeCopy(ob *core.SuObject, in opIn) (cp *core.SuObject, out string, crash string) {
+// takeCopy performs copy or slice on the shared container and keeps the copy.
+func takeCopy(c core.Container, in opIn) (cp core.Container, out string, crash string) {
 	defer func() {
 		if e := recover(); e != nil {
 			if _, ok := e.(interface{ RuntimeError() }); ok {
@@ -146,39 +171,53 @@ func takeCopy(ob *core.SuObject, in opIn) (cp *core.SuObject, out string, crash 
 		}
 	}()
 	if in.Kind == "slice" {
-		cp = ob.Slice(in.K % 3).(*core.SuObject)
+		cp = c.Slice(in.K % 3)
 	} else {
-		cp = ob.Clone()
+		cp = c.Copy()
 	}
 	return cp, encode(cp), ""
 }
 
-// encode renders the contents of an object canonically.
-func encode(ob *core.SuObject) string {
+// encode renders the contents of a container canonically. (On a row-backed record this
+// unpacks the row, so it is only used on copies, twins and at the end.)
+func encode(c core.Container) string {
 	var sb strings.Builder
-	n := ob.ListSize()
+	n := c.ListSize()
 	for i := 0; i < n; i++ {
-		sb.WriteString(ob.ListGet(i).String())
+		sb.WriteString(c.ListGet(i).String())
 		sb.WriteByte(',')
 	}
 	sb.WriteByte('|')
 	var named []string
-	it := ob.Iter2(false, true)
+	it := c.Iter2(false, true)
 	for k, v := it(); k != nil; k, v = it() {
-		named = append(named, k.String()+":"+v.String())
+		ks := ""
+		if s, ok := k.(core.SuStr); ok {
+			ks = string(s)
+		} else {
+			ks = k.String()
+		}
+		named = append(named, ks+":"+v.String())
 	}
 	sort.Strings(named)
 	sb.WriteString(strings.Join(named, ","))
 	return sb.String()
 }
 
-func decode(s string) *core.SuObject {
-	ob := &core.SuObject{}
+// decode builds a private container of the given kind with the encoded contents (a record
+// is built member by member: the model never reads from a row).
+func decode(ckind int, s string) core.Container {
+	var c core.Container = &core.SuObject{}
+	var rec *core.SuRecord
+	if ckind != kObject {
+		rec = core.NewSuRecord()
+		c = rec
+	}
 	parts := strings.SplitN(s, "|", 2)
 	for _, x := range strings.Split(parts[0], ",") {
 		if x != "" {
 			n, _ := strconv.Atoi(x)
-			ob.Add(core.SuInt(n))
+			c.Add(core.SuInt(n))
 		}
 	}
 	if len(parts) > 1 {
@@ -187,34 +226,103 @@ func decode(s string) *core.SuObject {
 				continue
 			}
 			p := strings.SplitN(kv, ":", 2)
-			k, _ := strconv.Atoi(p[0])
+			var k core.Value
+			if n, err := strconv.Atoi(p[0]); err == nil {
+				k = core.SuInt(n)
+			} else {
+				k = core.SuStr(p[0])
+			}
 			v, _ := strconv.Atoi(p[1])
-			ob.Set(core.SuInt(k), core.SuInt(v))
+			if rec != nil {
+				rec.Set(k, core.SuInt(v))
+			} else {
+				c.(*core.SuObject).Set(k, core.SuInt(v))
+			}
 		}
 	}
-	return ob
+	return c
+}
+
+// build makes the shared container from the generated initial contents.
+func build(ckind int, list []int, named map[int]int) core.Container {
+	switch ckind {
+	case kObject:
+		ob := &core.SuObject{}
+		for _, v := range list {
+			ob.Add(core.SuInt(v))
+		}
+		for _, k := range sortedKeys(named) {
+			ob.Set(core.SuInt(k), core.SuInt(named[k]))
+		}
+		return ob
+	case kRecord:
+		r := core.NewSuRecord()
+		for _, v := range list {
+			r.Add(core.SuInt(v))
+		}
+		for _, k := range sortedKeys(named) {
+			r.Set(key(ckind, k), core.SuInt(named[k]))
+		}
+		return r
+	}
+	// a record over a database row with the fields f0..f3 (some of them empty); nothing
+	// is unpacked yet
+	var rb core.RecordBuilder
+	for i := range rowFields {
+		if v, ok := named[i]; ok {
+			rb.Add(core.SuInt(v))
+		} else {
+			rb.AddRaw("")
+		}
+	}
+	row := core.Row{core.DbRec{Record: rb.Build()}}
+	hdr := core.NewHeader([][]string{rowFields}, rowFields)
+	r := core.SuRecordFromRow(row, hdr, "", nil)
+	for _, v := range list {
+		r.Add(core.SuInt(v))
+	}
+	return r
+}
+
+func sortedKeys(m map[int]int) []int {
+	var ks []int
+	for k := range m {
+		ks = append(ks, k)
+	}
+	sort.Ints(ks)
+	return ks
 }
 
 func run(s *simrt.Sim, mode string, ri *hkit.RunInfo) {
 	g := s.Tape.Stream("gen")
-	ob := &core.SuObject{}
+	ckind := g.Pick(2, 1, 1)
+	var list []int
+	named := map[int]int{}
 	for i := g.Choose(4); i > 0; i-- {
-		ob.Add(core.SuInt(g.Choose(4)))
+		list = append(list, g.Choose(4))
 	}
 	for i := g.Choose(3); i > 0; i-- {
-		ob.Set(core.SuInt(5+g.Choose(4)), core.SuInt(g.Choose(4)))
+		if ckind == kRowRecord {
+			named[g.Choose(4)] = g.Choose(4)
+		} else {
+			named[g.Choose(9)] = g.Choose(4)
+		}
 	}
-	initial := encode(ob)
+	ob := build(ckind, list, named)
+	initial := encode(build(ckind, list, named)) // from a twin: encoding unpacks a row
 	ob.SetConcurrent()
 	nthreads := g.Range(2, 4)
 	mix, maxOps := kinds, 6
 	if g.Choose(2) == 0 {
 		mix, maxOps = copyKinds, 9
 		if g.Choose(2) == 0 {
-			// a shared object that has been copied and modified before
-			ob.Clone()
-			ob.Add(core.SuInt(g.Choose(4)))
-			initial = encode(ob)
+			// a shared container that has been copied and modified before
+			ob.Copy()
+			v := g.Choose(4)
+			ob.Add(core.SuInt(v))
+			tw := decode(ckind, initial)
+			tw.Add(core.SuInt(v))
+			initial = encode(tw)
 		}
 	}
 	var plans [][]opIn
@@ -237,7 +345,7 @@ func run(s *simrt.Sim, mode string, ri *hkit.RunInfo) {
 		s.GoNamed(fmt.Sprintf("thread%d", t), func() {
 			defer wg.Done()
 			// this thread's private copy of the shared object, and what it has to contain
-			var priv, privModel *core.SuObject
+			var priv, privModel core.Container
 			intact := func(when string) bool {
 				if priv == nil {
 					return true
@@ -264,8 +372,8 @@ func run(s *simrt.Sim, mode string, ri *hkit.RunInfo) {
 					if !intact(fmt.Sprintf("before its %s(%d,%d)", in.Kind, in.K, in.V)) {
 						return
 					}
-					out, crash := apply(priv, in)
-					want, _ := apply(privModel, in)
+					out, crash := apply(priv, ckind, in)
+					want, _ := apply(privModel, ckind, in)
 					if crash != "" {
 						s.Fail("C43/crash", "", "thread %d: %s(%d,%d) on its private copy raised a Go run-time error: %s", t, in.Kind, in.K, in.V, crash)
 						return
@@ -289,14 +397,14 @@ func run(s *simrt.Sim, mode string, ri *hkit.RunInfo) {
 					}
 					priv, out, crash = takeCopy(ob, in)
 					if crash == "" && priv != nil {
-						privModel = decode(out)
+						privModel = decode(ckind, out)
 					}
 				} else {
-					out, crash = apply(ob, in)
+					out, crash = apply(ob, ckind, in)
 				}
 				seq++
 				if crash != "" {
-					s.Fail("C43/crash", "", "thread %d: %s(%d,%d) on a shared object raised a Go run-time error: %s", t, in.Kind, in.K, in.V, crash)
+					s.Fail("C43/crash", "", "thread %d: %s(%d,%d) on a shared %s raised a Go run-time error: %s", t, in.Kind, in.K, in.V, kindNames[ckind], crash)
 					return
 				}
 				events = append(events, event{client: t, in: in, out: out, call: c, rt: seq})
@@ -308,17 +416,19 @@ func run(s *simrt.Sim, mode string, ri *hkit.RunInfo) {
 	if s.Over() {
 		return
 	}
-	ri.History = hist{initial: initial, events: events, final: encode(ob)}
+	final := encode(ob)
+	ri.History = hist{ckind: ckind, initial: initial, events: events, final: final}
 	ri.Count("operations", int64(total))
 	ri.Nontrivial = total >= 3
 	var sample []string
 	for _, e := range events {
 		sample = append(sample, fmt.Sprintf("[%d,%d] t%d %s(%d,%d)=%s", e.call, e.rt, e.client, e.in.Kind, e.in.K, e.in.V, e.out))
 	}
-	ri.Sample = map[string]any{"initial": initial, "history": sample, "final": encode(ob), "policy": s.PolicyName()}
+	ri.Sample = map[string]any{"initial": initial, "history": sample, "final": final, "kind": kindNames[ckind], "policy": s.PolicyName()}
 }
 
 type hist struct {
+	ckind   int
 	initial string
 	events  []event
 	final   string
@@ -329,15 +439,23 @@ func after(mode string, ri *hkit.RunInfo) *simrt.Failure {
 	if !ok {
 		return nil
 	}
+	// the checker's goroutines may outlive a timed out check; they must not touch the
+	// instrumented code once the next simulation has started
+	var inflight, dead atomic.Int32
 	model := porcupine.Model{
 		Init: func() any { return h.initial },
 		Step: func(state, input, output any) (bool, any) {
-			ob := decode(state.(string))
+			inflight.Add(1)
+			defer inflight.Add(-1)
+			if dead.Load() != 0 {
+				return false, state
+			}
+			ob := decode(h.ckind, state.(string))
 			in := input.(opIn)
 			if in.Kind == "final" {
 				return encode(ob) == output.(string), state
 			}
-			if in.Kind == "find" {
+			if in.Kind == "find" && h.ckind == kObject {
 				// which of several members holding the value is found is not specified
 				// (it depends on the hash map's internal order): accept any of them
 				got := output.(string)
@@ -357,7 +475,7 @@ func after(mode string, ri *hkit.RunInfo) *simrt.Failure {
 					return false, state
 				}
 			}
-			out, crash := apply(ob, in)
+			out, crash := apply(ob, h.ckind, in)
 			if crash != "" {
 				out = "crash: " + crash
 			}
@@ -374,14 +492,19 @@ func after(mode string, ri *hkit.RunInfo) *simrt.Failure {
 	}
 	// the final contents must be the result of the linearization too
 	ops = append(ops, porcupine.Operation{ClientId: 99, Input: opIn{Kind: "final"}, Call: last + 1, Output: h.final, Return: last + 2})
-	switch porcupine.CheckOperationsTimeout(model, ops, 2*time.Second) {
+	verdict := porcupine.CheckOperationsTimeout(model, ops, 2*time.Second)
+	dead.Store(1)
+	for inflight.Load() != 0 {
+		time.Sleep(100 * time.Microsecond)
+	}
+	switch verdict {
 	case porcupine.Illegal:
 		var sb strings.Builder
 		for _, e := range h.events {
 			fmt.Fprintf(&sb, "[%d,%d] t%d %s(%d,%d)=%s; ", e.call, e.rt, e.client, e.in.Kind, e.in.K, e.in.V, e.out)
 		}
 		return &simrt.Failure{Oracle: "C43/not-linearizable", Sig: "C43/not-linearizable",
-			Message: fmt.Sprintf("operations on a shared object are not linearizable: initial %q history %s final %q", h.initial, sb.String(), h.final)}
+			Message: fmt.Sprintf("operations on a shared %s are not linearizable: initial %q history %s final %q", kindNames[h.ckind], h.initial, sb.String(), h.final)}
 	case porcupine.Unknown:
 		ri.Count("porcupine.unknown", 1)
 	default:
